@@ -240,6 +240,9 @@ impl GenericsAnalyzer {
                 _ => None,
             })?;
 
+        let lifted_params = self.trait_generics.params.len();
+        let lifted_predicates = self.trait_generics.where_predicates.len();
+
         for (index, param) in generic_params.iter().enumerate() {
             if index != matching_index && !(matches!(param, &syn::GenericParam::Lifetime(_))) {
                 self.trait_generics.params.push(param.clone());
@@ -280,6 +283,27 @@ impl GenericsAnalyzer {
                 }
             }
         };
+
+        {
+            // what was lifted to the trait may mention the deps parameter as well:
+            use syn::visit_mut::VisitMut;
+            let mut to_self = crate::signature::DepsParamToSelf(generic_param_ident, false);
+            for param in self.trait_generics.params.iter_mut().skip(lifted_params) {
+                to_self.visit_generic_param_mut(param);
+            }
+            // a predicate that mentions it stays on the method (where `Self: Sized` can be required)
+            let predicates = std::mem::take(&mut self.trait_generics.where_predicates);
+            for (index, mut predicate) in predicates.into_iter().enumerate() {
+                if index >= lifted_predicates {
+                    to_self.1 = false;
+                    to_self.visit_where_predicate_mut(&mut predicate);
+                    if to_self.1 {
+                        continue;
+                    }
+                }
+                self.trait_generics.where_predicates.push(predicate);
+            }
+        }
 
         Some(FnDeps::Generic {
             generic_param: Some(generic_param_ident.clone()),
